@@ -557,9 +557,9 @@ Lemma step_complaint_other A q o cb :
   end.
 Proof.
   intros Hq S P Ho Hon Hop. unfold q_receive_complaint.
-  destruct S as [Sst Sct Svr Svok Svnone Sxr Scompl Searly Sx Sx0 Sx1].
+  pose proof S as [Sst Sct Svr Svok Svnone Sxr Scompl Searly Sx Sx0 Sx1].
   destruct (q_ct q) eqn:Ect.
-  { red1. apply (refines_same A); auto; [|constructor; auto; congruence].
+  { red1. apply (refines_same A); auto.
     apply not_dealer_irrelevant; auto. intro c. unfold complaint_of. destruct cb; try reflexivity.
     symmetry in Sct. apply Nat.leb_le in Sct.
     assert (E : Nat.ltb (nph A) 2 = false) by (apply Nat.ltb_ge; exact Sct). rewrite E, !andb_false_r. reflexivity. }
@@ -567,13 +567,13 @@ Proof.
   { symmetry in Sct. apply Nat.leb_gt in Sct. exact Sct. }
   rewrite (proj2 (Nat.eqb_neq o d) Ho).
   destruct cb as [|b].
-  { red1. apply (refines_same A); auto; [|constructor; auto; congruence]. apply not_dealer_irrelevant; auto. }
+  { red1. apply (refines_same A); auto. apply not_dealer_irrelevant; auto. }
   destruct (Z.of_nat (c_n cf) <=? b) eqn:Eb.
-  { red1. apply (refines_same A); auto; [|constructor; auto; congruence]. apply not_dealer_irrelevant; auto.
+  { red1. apply (refines_same A); auto. apply not_dealer_irrelevant; auto.
     intro c. unfold complaint_of. rewrite Eb. red1. rewrite !andb_false_r. reflexivity. }
   cbn [negb].
   destruct (Nat.eqb_spec (Z.to_nat b) d) as [Ebd|Ebd]; cbn [negb].
-  2:{ red1. apply (refines_same A); auto; [|constructor; auto; congruence]. apply not_dealer_irrelevant; auto.
+  2:{ red1. apply (refines_same A); auto. apply not_dealer_irrelevant; auto.
       intro c. unfold complaint_of. rewrite (proj2 (Nat.eqb_neq _ _) Ebd). rewrite !andb_false_r. reflexivity. }
   (* a valid complaint against the dealer *)
   assert (Hop' : o <> p) by (unfold p; congruence).
@@ -608,16 +608,16 @@ Proof.
     { unfold same_facts. repeat split; auto; try (intro c; auto).
       - unfold B. rewrite compF_app. unfold comp_of. destruct (compF A c) eqn:E; [reflexivity|]. red1.
         unfold complaint_of. destruct (Nat.eqb_spec o c) as [<-|]; [congruence|reflexivity]. }
-    apply (refines_same A); auto. constructor; auto; congruence.
+    apply (refines_same A); auto.
   + red1. assert (SF : same_facts A B).
     { unfold same_facts. repeat split; auto; try (intro c; auto).
       - unfold B. rewrite compF_app. unfold comp_of. destruct (compF A c) eqn:E; [reflexivity|]. red1.
         unfold complaint_of. destruct (Nat.eqb_spec o c) as [<-|]; [congruence|reflexivity]. }
-    apply (refines_same A); auto. constructor; auto; congruence.
+    apply (refines_same A); auto.
   + (* the answer came first *)
     pose proof (badFirst_readable A o z P3 Eao) as Hrz.
     cbn [qset_compl q_v]. rewrite (proj2 (Nat.eqb_neq (c_my cf) d) Hpd). cbn [negb andb].
-    assert (S0 : StateAbs A q) by (constructor; auto; congruence).
+    pose proof S as S0.
     assert (Fp : complained B p = complained A p).
     { rewrite Fc, (proj2 (Nat.eqb_neq o p) Hop'), orb_false_r. reflexivity. }
     assert (SAB : forall q', q_st q' = q_st q -> q_ct q' = q_ct q -> q_v q' = q_v q ->
@@ -625,7 +625,7 @@ Proof.
     { intros q' E1 E2 E3 E4. apply (SA_transfer A B q q' S0); auto.
       intro c. rewrite E4, Fc, Fa. destruct (Nat.eqb_spec c o) as [->|Hc].
       - rewrite upd_same, Nat.eqb_refl, orb_true_r, Eao. reflexivity.
-      - rewrite upd_other by exact Hc. rewrite (proj2 (Nat.eqb_neq o c)) by congruence. rewrite orb_false_r. apply Scompl. }
+      - rewrite upd_other by exact Hc. rewrite (proj2 (Nat.eqb_neq o c)) by (intro; apply Hc; symmetry; assumption). rewrite orb_false_r. apply Scompl. }
     destruct (v_vArecv (q_v q)) eqn:Er; cbn [andb].
     * (* the vector is there: check now *)
       rewrite Svr in Er. destruct (vecF A) as [vb|] eqn:Ev; [|discriminate].
@@ -643,19 +643,19 @@ Proof.
     * (* no vector yet: the check is deferred *)
       red1. rewrite Svr in Er. destruct (vecF A) eqn:Ev; [discriminate|].
       assert (Evo : vecOk A = None) by (unfold DkgQualFacts.vecOk; rewrite Ev; reflexivity).
-      rewrite Evo in WB. split; intro Hq'; cbn [q_disq qset_disq qset_compl qset_v] in Hq'; [|congruence]. split; [|apply PB; exact WB].
+      rewrite Evo in WB. split; intro Hq'; cbn [q_disq qset_disq qset_compl qset_v] in Hq'; [|rewrite Hq in Hq'; discriminate Hq']. split; [|apply PB; exact WB].
       apply SAB; auto.
   + (* a new complaint *)
     cbn [qset_compl q_v]. rewrite (proj2 (Nat.eqb_neq (c_my cf) d) Hpd). red1.
     assert (WB' : wrongAns cf d B = false) by (rewrite WB; destruct (vecOk A); reflexivity).
-    split; intro Hq'; cbn [q_disq qset_disq qset_compl qset_v] in Hq'; [|congruence]. split; [|apply PB; exact WB'].
-    assert (S0 : StateAbs A q) by (constructor; auto; congruence).
+    split; intro Hq'; cbn [q_disq qset_disq qset_compl qset_v] in Hq'; [|rewrite Hq in Hq'; discriminate Hq']. split; [|apply PB; exact WB'].
+    pose proof S as S0.
     assert (Fp : complained B p = complained A p).
     { rewrite Fc, (proj2 (Nat.eqb_neq o p) Hop'), orb_false_r. reflexivity. }
     apply (SA_transfer A B q _ S0); auto.
     intro c. red1. rewrite Fc, Fa. destruct (Nat.eqb_spec c o) as [->|Hc].
     * rewrite upd_same, Nat.eqb_refl, orb_true_r, Eao. reflexivity.
-    * rewrite upd_other by exact Hc. rewrite (proj2 (Nat.eqb_neq o c)) by congruence. rewrite orb_false_r. apply Scompl.
+    * rewrite upd_other by exact Hc. rewrite (proj2 (Nat.eqb_neq o c)) by (intro; apply Hc; symmetry; assumption). rewrite orb_false_r. apply Scompl.
 Qed.
 
 Lemma step_IB_other A q o m :
@@ -680,6 +680,261 @@ Proof.
   - unfold q_receive_answer. rewrite (proj2 (Nat.eqb_neq o d) Ho). cbn.
     apply (refines_same A); auto. apply not_dealer_irrelevant; auto.
   - apply (refines_same A); auto. apply not_dealer_irrelevant; auto.
+Qed.
+
+(* ---------------- a well-formed answer of the dealer ---------------- *)
+Section Answer.
+Variables (A : alist) (b z : Z).
+Hypothesis Hb : (Z.of_nat n <=? b) = false.
+Let c := Z.to_nat b.
+Let B := A ++ [(nph A, IB d (MAnswer (AVal b z)))].
+
+Lemma ans_c_lt : (c < n)%nat.
+Proof. apply Z.leb_gt in Hb. unfold c. lia. Qed.
+
+Lemma ans_vecF : vecF B = vecF A.
+Proof. unfold B. rewrite vecF_app. destruct (vecF A); reflexivity. Qed.
+Lemma ans_shF : shF B = shF A.
+Proof. unfold B. rewrite shF_app. destruct (shF A); reflexivity. Qed.
+Lemma ans_fatal : fatal B = fatal A.
+Proof. unfold B. rewrite fatal_app. unfold fatal_of, fatal_msg. unfold n in Hb. rewrite Hb, andb_false_r, orb_false_r. reflexivity. Qed.
+Lemma ans_forced : forced B = forced A.
+Proof. unfold B. rewrite forced_app. rewrite orb_false_r. reflexivity. Qed.
+Lemma ans_nph : nph B = nph A.
+Proof. unfold B. rewrite nph_app. reflexivity. Qed.
+Lemma ans_compF c' : compF B c' = compF A c'.
+Proof. unfold B. rewrite compF_app. cbn. rewrite orb_false_r. reflexivity. Qed.
+Lemma ans_vecOk : vecOk B = vecOk A.
+Proof. apply same_vecOk. apply ans_vecF. Qed.
+Lemma ans_ownc : ownc B = ownc A.
+Proof. unfold DkgQualFacts.ownc. rewrite ans_shF, ans_nph, ans_vecOk. reflexivity. Qed.
+Lemma ans_complained c' : complained B c' = complained A c'.
+Proof. unfold DkgQualFacts.complained. rewrite ans_ownc, ans_compF. reflexivity. Qed.
+
+Lemma ans_of_this c' : ans_of c' (IB d (MAnswer (AVal b z))) = if Nat.eqb c c' then Some z else None.
+Proof.
+  unfold ans_of, answer_for. rewrite Nat.eqb_refl. unfold n in Hb. rewrite Hb. cbn [negb andb]. fold c. reflexivity.
+Qed.
+
+Lemma ans_ansF c' : ansF B c' = match ansF A c' with Some v => Some v | None => if Nat.eqb c c' then Some z else None end.
+Proof. unfold B. rewrite ansF_app, ans_of_this. reflexivity. Qed.
+
+Lemma ans_ansEarly c' : ansEarly B c' = ansEarly A c' || (Nat.eqb c c' && Nat.ltb (nph A) 2).
+Proof. unfold B. rewrite ansEarly_app, ans_of_this. destruct (Nat.eqb c c'); reflexivity. Qed.
+
+(* a second answer for the same complainer changes nothing *)
+Lemma ans_dup v : ansF A c = Some v -> ((nph A < 2)%nat -> ansEarly A c = true) -> same_facts A B.
+Proof.
+  intros E He. unfold same_facts.
+  split; [symmetry; apply ans_vecF|]. split; [symmetry; apply ans_shF|].
+  split; [|split; [|split; [symmetry; apply ans_fatal|split; [|split; [symmetry; apply ans_forced|symmetry; apply ans_nph]]]]].
+  - intro c'. rewrite ans_ansF. destruct (ansF A c') eqn:E'; [reflexivity|].
+    destruct (Nat.eqb_spec c c') as [<-|]; [rewrite E in E'; discriminate|reflexivity].
+  - intro c'. rewrite ans_ansEarly. destruct (Nat.eqb_spec c c') as [<-|]; [|rewrite orb_false_r; reflexivity].
+    cbn [andb]. destruct (Nat.ltb_spec (nph A) 2) as [H|H]; [rewrite (He H); reflexivity|rewrite orb_false_r; reflexivity].
+  - intro c'. symmetry. apply ans_compF.
+Qed.
+
+(* the first answer for c *)
+Hypothesis Hfirst : ansF A c = None.
+
+Lemma ans_badFirst : badFirst cf d B = badFirst cf d A || negb (readable z).
+Proof.
+  unfold badFirst.
+  rewrite (existsb_ext' _ (fun c' => (match ansF A c' with Some v => negb (readable v) | None => false end || Nat.eqb c c')
+                                     && (match ansF A c' with Some v => negb (readable v) | None => negb (readable z) end))).
+  2:{ intro c'. rewrite ans_ansF. destruct (ansF A c') as [v|]; [destruct (readable v), (Nat.eqb c c'); reflexivity|].
+      destruct (Nat.eqb c c'); reflexivity. }
+  rewrite existsb_or_point, existsb_eqb_seq by exact ans_c_lt. rewrite Hfirst. cbn [andb].
+  f_equal. apply existsb_ext'. intro c'. destruct (ansF A c') as [v|]; [destruct (readable v); reflexivity|reflexivity].
+Qed.
+
+Lemma ans_wrongAns :
+  wrongAns cf d B = wrongAns cf d A ||
+    match vecOk A with
+    | Some a => complained A c && readable z && negb (z =? peval a (Z.of_nat c + 1))
+    | None => false
+    end.
+Proof.
+  unfold wrongAns. rewrite ans_vecOk. destruct (vecOk A) as [a|]; [|reflexivity].
+  set (g := fun (v : Z) (c' : nat) => readable v && negb (v =? peval a (Z.of_nat c' + 1))).
+  rewrite (existsb_ext' _ (fun c' => ((complained A c' && match ansF A c' with Some v => g v c' | None => false end) || Nat.eqb c c')
+                                     && (complained A c' && match ansF A c' with Some v => g v c' | None => g z c' end))).
+  2:{ intro c'. rewrite ans_complained, ans_ansF. unfold g. destruct (complained A c'); [|destruct (Nat.eqb c c'); reflexivity]. cbn [andb].
+      destruct (ansF A c') as [v|].
+      - destruct (readable v && negb (v =? peval a (Z.of_nat c' + 1))), (Nat.eqb c c'); reflexivity.
+      - destruct (Nat.eqb c c'); [destruct (readable z && negb (z =? peval a (Z.of_nat c' + 1)))|]; reflexivity. }
+  rewrite existsb_or_point, existsb_eqb_seq by exact ans_c_lt. rewrite Hfirst. cbn [andb].
+  f_equal; [|unfold g; rewrite andb_assoc; reflexivity].
+  apply existsb_ext'. intro c'. unfold g. destruct (complained A c'); [|reflexivity]. cbn [andb].
+  destruct (ansF A c') as [v|]; [destruct (readable v && negb (v =? peval a (Z.of_nat c' + 1))); reflexivity|reflexivity].
+Qed.
+
+Lemma ans_tooMany : ((nph A < 2)%nat -> forall c', ansEarly A c' = isSome (ansF A c')) -> tooMany cf d A = false -> tooMany cf d B = false.
+Proof.
+  intros He H. unfold tooMany in *. rewrite ans_nph.
+  destruct (Nat.leb_spec 2 (nph A)) as [H2|H2]; [|reflexivity]. cbn [andb] in *.
+  assert (E : nkeys cf d B = nkeys cf d A).
+  { unfold nkeys. f_equal. apply filter_ext'. intro c'. unfold keyF. rewrite ans_complained, ans_ansEarly.
+    assert (El : Nat.ltb (nph A) 2 = false) by (apply Nat.ltb_ge; exact H2). rewrite El, andb_false_r, orb_false_r. reflexivity. }
+  rewrite E. exact H.
+Qed.
+
+Lemma ans_Phi : Phi A = false ->
+  ((nph A < 2)%nat -> forall c', ansEarly A c' = isSome (ansF A c')) ->
+  Phi B = negb (readable z) ||
+          match vecOk A with
+          | Some a => complained A c && readable z && negb (z =? peval a (Z.of_nat c + 1))
+          | None => false
+          end.
+Proof.
+  intros P He. destruct (Phi_false_inv A P) as (P1 & P2 & P3 & P4 & P5 & P6 & P7).
+  unfold DkgQualFacts.Phi. rewrite ans_forced, ans_fatal, P1, P2, ans_badFirst, P3, ans_wrongAns, P7.
+  assert (E4 : badVec d B = false) by (unfold badVec; rewrite ans_vecF; exact P4).
+  assert (E5 : noVec d B = false) by (unfold noVec; rewrite ans_nph, ans_vecF; exact P5).
+  rewrite E4, E5, (ans_tooMany He P6). cbn [orb]. rewrite !orb_false_r. reflexivity.
+Qed.
+
+End Answer.
+
+Lemma vecF_valid A q : StateAbs A q -> Phi A = false -> v_vArecv (q_v q) = true ->
+  exists l, vecF A = Some (VOk l) /\ vecOk A = Some (fixpoly (c_t cf) l) /\
+            v_y (q_v q) = Some (pubkeys cf (fixpoly (c_t cf) l)).
+Proof.
+  intros S P Er. destruct (Phi_false_inv A P) as (_ & _ & _ & P4 & _).
+  rewrite (sa_vr _ _ S) in Er. destruct (vecF A) as [vb|] eqn:Ev; [|discriminate].
+  unfold badVec in P4. rewrite Ev in P4. destruct vb as [|k|l]; try discriminate.
+  exists l. split; [reflexivity|].
+  assert (Evo : vecOk A = Some (fixpoly (c_t cf) l)) by (unfold DkgQualFacts.vecOk; rewrite Ev; reflexivity).
+  split; [exact Evo|]. apply (sa_vok _ _ S _ Evo).
+Qed.
+
+Lemma vecF_none A q : StateAbs A q -> v_vArecv (q_v q) = false -> vecF A = None /\ vecOk A = None.
+Proof.
+  intros S Er. rewrite (sa_vr _ _ S) in Er. destruct (vecF A) eqn:Ev; [discriminate|].
+  split; [reflexivity|]. unfold DkgQualFacts.vecOk. rewrite Ev. reflexivity.
+Qed.
+
+(* the state after the first, readable answer for c *)
+Lemma SA_answer A q b z q' :
+  (Z.of_nat n <=? b) = false ->
+  let c := Z.to_nat b in
+  let B := A ++ [(nph A, IB d (MAnswer (AVal b z)))] in
+  StateAbs A q -> ansF A c = None -> readable z = true ->
+  q_st q' = q_st q -> q_ct q' = q_ct q ->
+  (forall c', q_compl q' c' = upd (q_compl q) c (mkC (complained A c) true z) c') ->
+  v_vArecv (q_v q') = v_vArecv (q_v q) -> v_vA (q_v q') = v_vA (q_v q) -> v_y (q_v q') = v_y (q_v q) ->
+  v_xrecv (q_v q') = v_xrecv (q_v q) ->
+  (* the share: adopted when the own complaint was answered (and, with a vector, correctly) *)
+  ((c = p /\ complained A p = true /\
+    (forall a, vecOk A = Some a -> z = peval a (Z.of_nat p + 1)) /\ v_x (q_v q') = z)
+   \/ ((c <> p \/ complained A p = false) /\ v_x (q_v q') = v_x (q_v q))) ->
+  StateAbs B q'.
+Proof.
+  intros Hb c B S Hfirst Hrz E1 E2 E4 Evr EvA Ey Exr Hx.
+  pose proof S as [Sst Sct Svr Svok Svnone Sxr Scompl Searly Sx Sx0 Sx1].
+  pose proof (ans_vecF A b z) as Fv. pose proof (ans_shF A b z) as Fs. pose proof (ans_nph A b z) as Fn.
+  pose proof (ans_vecOk A b z) as Fvo. pose proof (ans_complained A b z) as Fc.
+  pose proof (ans_ansF A b z Hb) as Fa. pose proof (ans_ansEarly A b z Hb) as Fe.
+  fold c in Fa, Fe. fold B in Fv, Fs, Fn, Fvo, Fc, Fa, Fe.
+  refine (mkSA _ _ _ _ _ _ _ _ _ _ _ _ _); rewrite ?Fn, ?Fv, ?Fs, ?Fvo, ?E1, ?E2, ?Evr, ?EvA, ?Ey, ?Exr; auto.
+  - intro c'. rewrite E4, Fc, Fa. destruct (Nat.eqb_spec c' c) as [->|Hc].
+    + rewrite upd_same, Hfirst, Nat.eqb_refl. destruct (complained A c); reflexivity.
+    + rewrite upd_other by exact Hc. rewrite Scompl.
+      destruct (ansF A c'); [reflexivity|]. rewrite (proj2 (Nat.eqb_neq c c')) by (intro; apply Hc; symmetry; assumption). reflexivity.
+  - intros Hn c'. rewrite Fe, Fa, (Searly Hn c'). rewrite (proj2 (Nat.ltb_lt _ _) Hn), andb_true_r.
+    destruct (ansF A c'); [reflexivity|]. destruct (Nat.eqb c c'); reflexivity.
+  - intros a Ea Hs. rewrite Fc, Fa.
+    destruct Hx as [(Hcp & Hcm & Hz & Hx)|(Hcp & Hx)].
+    + left. rewrite Hx. apply Hz. exact Ea.
+    + rewrite Hx. destruct (Sx a Ea Hs) as [L|[R1 R2]]; [left; exact L|].
+      destruct Hcp as [Hcp|Hcp]; [|rewrite Hcp in R1; discriminate].
+      right. split; [exact R1|]. rewrite R2. rewrite (proj2 (Nat.eqb_neq c p) Hcp). reflexivity.
+  - intros Hv Hcm z0 Ez. rewrite Fc in Hcm. rewrite Fa in Ez.
+    destruct Hx as [(Hcp & _ & _ & Hx)|(Hcp & Hx)].
+    + rewrite Hx. rewrite <- Hcp in Ez. rewrite Hfirst, Nat.eqb_refl in Ez. inversion Ez. reflexivity.
+    + rewrite Hx. destruct Hcp as [Hcp|Hcp]; [|rewrite Hcp in Hcm; discriminate].
+      destruct (ansF A p) eqn:E; [inversion Ez; subst; apply Sx0; auto|].
+      rewrite (proj2 (Nat.eqb_neq c p) Hcp) in Ez. discriminate.
+  - intros Hv z0 Es Hr0.
+    destruct Hx as [(Hcp & Hcm & _ & Hx)|(Hcp & Hx)].
+    + exfalso. unfold DkgQualFacts.complained in Hcm. rewrite Nat.eqb_refl in Hcm.
+      unfold DkgQualFacts.ownc in Hcm. rewrite Es, Hr0 in Hcm.
+      unfold DkgQualFacts.vecOk in Hcm. rewrite Hv in Hcm. discriminate.
+    + rewrite Hx. apply Sx1; auto.
+Qed.
+
+Lemma step_answer A q ab :
+  q_disq q = false -> StateAbs A q -> Phi A = false ->
+  match q_receive_answer cf d d ab q with
+  | Some (q', _) => Refines (A ++ [(nph A, IB d (MAnswer ab))]) q'
+  | None => False
+  end.
+Proof.
+  intros Hq S P. unfold q_receive_answer. rewrite Nat.eqb_refl. cbn [negb].
+  pose proof S as [Sst Sct Svr Svok Svnone Sxr Scompl Searly Sx Sx0 Sx1].
+  destruct ab as [|b z].
+  { split; intro Hq'; [discriminate Hq'|]. apply orb_true_iff. left. apply orb_true_iff. left.
+    apply orb_true_iff. left. apply orb_true_iff. left. apply orb_true_iff. left. apply orb_true_iff. right.
+    rewrite fatal_app. unfold fatal_of. rewrite Nat.eqb_refl. cbn. apply orb_true_r. }
+  destruct (Z.of_nat (c_n cf) <=? b) eqn:Eb.
+  { split; intro Hq'; [discriminate Hq'|]. apply orb_true_iff. left. apply orb_true_iff. left.
+    apply orb_true_iff. left. apply orb_true_iff. left. apply orb_true_iff. left. apply orb_true_iff. right.
+    rewrite fatal_app. unfold fatal_of, fatal_msg. rewrite Nat.eqb_refl, Eb. apply orb_true_r. }
+  set (c := Z.to_nat b).
+  assert (Hc : (c < n)%nat) by (apply (ans_c_lt b Eb)).
+  rewrite (Scompl c).
+  destruct (ansF A c) as [v|] eqn:Eac.
+  { (* a second answer for c: flagged *)
+    assert (E : absEntry (complained A c) (Some v) = Some (mkC (complained A c) true v)) by (destruct (complained A c); reflexivity).
+    rewrite E. cbn [c_ans].
+    apply (refines_same A); auto. apply (ans_dup A b z Eb v Eac).
+    intro Hn. rewrite (Searly Hn c). fold c. rewrite Eac. reflexivity. }
+  pose proof (ans_Phi A b z Eb Eac P Searly) as PB. fold c in PB.
+  destruct (complained A c) eqn:Ecm; cbn [absEntry c_recv c_ans c_val].
+  - (* the complaint is registered *)
+    destruct (readable z) eqn:Hrz.
+    2:{ pose proof (read_star_unreadable z 0 Hrz) as Er. destruct (read_star z 0) as [ok val]. cbn in Er. subst ok. cbn [negb].
+        split; intro Hq'; [discriminate Hq'|]. rewrite PB. reflexivity. }
+    rewrite (read_star_readable z 0 Hrz). cbn [negb]. cbn [negb] in PB.
+    destruct (v_vArecv (q_v q)) eqn:Er; cbn [q_v qset_compl].
+    + destruct (vecF_valid A q S P Er) as (l & Ev & Evo & Ey).
+      unfold check_complaint. cbn [q_v qset_compl]. rewrite Ey, (pubkeys_nth_error _ c Hc).
+      rewrite Evo in PB. cbn [andb orb] in PB.
+      destruct (z =? peval (fixpoly (c_t cf) l) (Z.of_nat c + 1)) eqn:Ez; cbn [negb] in *.
+      * (* correct answer *)
+        cbn [qset_disq q_disq negb andb].
+        split; intro Hq'; [|destruct (Nat.eqb c (c_my cf)); cbn in Hq'; discriminate Hq'].
+        split; [|exact PB].
+        apply Z.eqb_eq in Ez.
+        destruct (Nat.eqb_spec c (c_my cf)) as [Ecp|Ecp].
+        -- apply (SA_answer A q b z _ Eb S Eac Hrz); cbn; auto.
+           left. fold c. split; [exact Ecp|]. split; [rewrite <- Ecp; exact Ecm|]. split; [|reflexivity].
+           intros a Ea. rewrite Evo in Ea. inversion Ea; subst a. rewrite Ez, Ecp. reflexivity.
+        -- apply (SA_answer A q b z _ Eb S Eac Hrz); cbn; auto.
+      * split; intro Hq'; [cbn in Hq'; discriminate Hq'|]. exact PB.
+    + destruct (vecF_none A q S Er) as [Ev Evo]. rewrite Evo in PB. cbn [orb] in PB.
+      cbn [q_disq qset_compl]. rewrite Hq. cbn [negb andb].
+      split; intro Hq'; [|destruct (Nat.eqb c (c_my cf)); cbn in Hq'; rewrite Hq in Hq'; discriminate Hq'].
+      split; [|exact PB].
+      destruct (Nat.eqb_spec c (c_my cf)) as [Ecp|Ecp].
+      * apply (SA_answer A q b z _ Eb S Eac Hrz); cbn; auto.
+        left. fold c. split; [exact Ecp|]. split; [rewrite <- Ecp; exact Ecm|]. split; [|reflexivity].
+        intros a Ea. rewrite Evo in Ea. discriminate Ea.
+      * apply (SA_answer A q b z _ Eb S Eac Hrz); cbn; auto.
+  - (* an unsolicited answer: stored *)
+    rewrite Ecm in PB. cbn [andb] in PB.
+    assert (PB' : Phi (A ++ [(nph A, IB d (MAnswer (AVal b z)))]) = negb (readable z)).
+    { rewrite PB. destruct (vecOk A); rewrite orb_false_r; reflexivity. }
+    destruct (readable z) eqn:Hrz.
+    2:{ pose proof (read_star_unreadable z 0 Hrz) as Er. destruct (read_star z 0) as [ok val]. cbn in Er. subst ok.
+        split; intro Hq'; [discriminate Hq'|]. exact PB'. }
+    rewrite (read_star_readable z 0 Hrz).
+    split; intro Hq'; [|cbn in Hq'; rewrite Hq in Hq'; discriminate Hq'].
+    split; [|exact PB'].
+    apply (SA_answer A q b z _ Eb S Eac Hrz); cbn; auto.
+    + fold c. rewrite Ecm. auto.
+    + right. split; [|reflexivity]. destruct (Nat.eqb_spec c p) as [Ecp|Ecp]; [right; rewrite <- Ecp; exact Ecm|left; exact Ecp].
 Qed.
 
 End Refine.
